@@ -215,6 +215,31 @@ where
     let pf: Vec<G::NodeId> = DfsPostOrder::new(g, ids[x]).iter(g).take(cap).collect();
     let pfa = seq_abs(cx, g, &back, &pf, "DfsPostOrder")?;
     cx.same(&p3a, &pfa, "DfsPostOrder.reset+move_to==fresh")?;
+    // move_to in the middle of a traversal ("keep the discovered and finished map, but clear the visit stack"):
+    // the public `discovered` map tells which nodes are closed to the restarted walk
+    let mut pm = DfsPostOrder::new(g, ids[s]);
+    let k = rng.below(pa.len().max(1));
+    let mut fin = vec![false; abs.n];
+    for _ in 0..k {
+        if let Some(y) = pm.next(g) {
+            fin[back.abs(cx, g, y, "DfsPostOrder")?] = true;
+        }
+    }
+    let disc_mid: Vec<bool> = (0..abs.n).map(|v| pm.discovered.is_visited(&ids[v])).collect();
+    let want_mid: Vec<bool> = if !disc_mid[x] {
+        reach_avoiding(abs, x, &disc_mid)
+    } else {
+        // already discovered: it is finished now if it was not (an open ancestor of the abandoned walk), nothing else
+        (0..abs.n).map(|v| v == x && !fin[x]).collect()
+    };
+    pm.move_to(ids[x]);
+    let mut p4 = vec![];
+    while let Some(y) = pm.next(g) {
+        p4.push(y);
+        cx.ensure(p4.len() <= cap, "DfsPostOrder.move_to(mid):overrun", || "overrun".into())?;
+    }
+    let p4a = seq_abs(cx, g, &back, &p4, "DfsPostOrder.move_to(mid)")?;
+    check_set_once(cx, abs.n, &p4a, &want_mid, "DfsPostOrder.move_to(mid-traversal)")?;
     Ok(())
 }
 
